@@ -132,6 +132,8 @@ def gen_cfg(seed: int, faulty: typing.Optional[bool] = None) -> dict:
                 req['vals'][rng.randrange(nrows)] = serving.POISON
         if faulty and rng.random() < 0.3:
             req['delay'] = rng.choice([0.01, 0.5, 2.5, 11.0])
+        if faulty and not req['fail'] and rng.random() < 0.06:
+            req['cancel'] = rng.choice([0.0, 0.001, 0.3, 1.5])  # the caller goes away that long after arriving
         requests.append(req)
     commits = []
     for app in apps:
@@ -141,7 +143,7 @@ def gen_cfg(seed: int, faulty: typing.Optional[bool] = None) -> dict:
     commits.sort(key=lambda c: c['at'])
     faults = {}
     if faulty:
-        for kind, p in (('spurious-timeout', 0.05), ('stall', 0.002)):
+        for kind, p in (('spurious-timeout', 0.05), ('stall', 0.002), ('inventory-io-error', 0.15)):
             if rng.random() < 0.5:
                 faults[kind] = p
     return {
@@ -250,8 +252,18 @@ def simulate(cfg: dict, schedule: typing.Optional[list] = None) -> dict:
         if cfg.get('commits'):
             kernel.spawn(trainer, 'trainer', 'process')
 
+        async def canceller(task, req):
+            await asyncio.sleep(req['offset'] + req['cancel'])
+            if not task.done():
+                records.setdefault(req['rid'], {}).update(cancelled=True)
+                kernel.stats['fault:caller-cancelled'] += 1
+                task.cancel()
+
         async def amain():
             tasks = [asyncio.ensure_future(client(r)) for r in cfg['requests']]
+            for task, req in zip(tasks, cfg['requests']):
+                if req.get('cancel') is not None:
+                    asyncio.ensure_future(canceller(task, req))
             last = max((r['offset'] for r in cfg['requests']), default=0.0)
             _, pending = await asyncio.wait(tasks, timeout=last + VBUDGET)
             state['pending'] = len(pending)
@@ -316,6 +328,8 @@ def judge(cfg: dict, result: dict) -> list[dict]:
     for req in cfg['requests']:
         rec = records.get(req['rid'])
         app = cfg['apps'][req['app']]
+        if rec is not None and rec.get('cancelled') and 'status' not in rec:
+            continue  # the caller went away: nothing to deliver (everybody else must still be served)
         if rec is None or 'status' not in rec:
             if result['outcome'].startswith('completed'):
                 out.append({'class': 'lost-response', 'rid': req['rid'],
@@ -328,10 +342,14 @@ def judge(cfg: dict, result: dict) -> list[dict]:
             if rec['status'] != 'exc':
                 out.append({'class': 'missing-failure', 'rid': req['rid'],
                             'detail': f'request {req["rid"]} ({req["fail"]}) was answered: {rec.get("payload")}'})
+            elif 'injected transient inventory storage error' in rec.get('msg', ''):
+                pass  # it met the injected inventory fault before its own defect could show
             elif not rec['platform'] or rec['exc'] not in EXPECTED_EXC[req['fail']]:
                 out.append({'class': 'wrong-failure', 'rid': req['rid'],
                             'detail': f'request {req["rid"]} ({req["fail"]}) failed with {rec["exc"]}: {rec["msg"]}'})
             continue
+        if rec['status'] != 'ok' and 'injected transient inventory storage error' in rec.get('msg', ''):
+            continue  # this request met the injected inventory fault itself: it may fail (alone)
         if rec['status'] != 'ok':
             out.append({'class': 'spurious-failure', 'rid': req['rid'], 'exc': rec['exc'],
                         'detail': f'valid request {req["rid"]} to {app["name"]} failed with {rec["exc"]}: {rec["msg"]}'})
